@@ -642,6 +642,8 @@ func (env *Env) call(e *Expr) SV {
 			return env.fail("sumdw needs a typed slice")
 		}
 		return env.sumdw(sl, k.T, e.Args[2].Lit)
+	case "cancelled":
+		return SV{T: Select(st.heapArr(ghCancelled, heapSorts[ghCancelled]), arg(0).T), Ty: bt}
 	case "closed":
 		return SV{T: x.closedAt(st, st.heapArr(ghClosed, heapSorts[ghClosed]), arg(0).T), Ty: bt}
 	case "sent":
